@@ -937,6 +937,63 @@ impl Property for C20 {
                 }
             }
         }
+        // the installer comes back while the handles are still held: files that were
+        // read (or found missing) a moment ago are created, rewritten or removed, and
+        // the same handle is asked again - it must answer from the file as it is now
+        for (pi, pkg) in listed.iter() {
+            let pi = *pi;
+            let dir = dbpath.join(OsString::from_vec(sc.pkgs[pi].name.clone()));
+            for f in 0..NFILES {
+                if (pi + f) % 3 != 0 {
+                    continue;
+                }
+                let path = dir.join(FILE_NAMES[f]);
+                let late: Option<String> = if !exists[pi][f] {
+                    Some(format!("late {} {}\n", pi, FILE_NAMES[f]))
+                } else if (pi + f) % 2 == 0 {
+                    Some(format!("rewritten {}\n{}", f, sc.pkgs[pi].contents[f].chars().rev().take(40).collect::<String>()))
+                } else {
+                    None
+                };
+                match &late {
+                    Some(t) => std::fs::write(&path, t.as_bytes()).unwrap_or_else(|e| panic!("SIM-HARNESS: write: {}", e)),
+                    None => {
+                        let _ = std::fs::remove_file(&path);
+                    }
+                }
+                ctx.fault("file_changed_after_read");
+                let got = pkg.read_metadata(entry(f));
+                ctx.step("read_metadata_again", pi as u64, f as u64);
+                match (&got, &late) {
+                    (Ok(s), Some(t)) => ensure!(
+                        s == t,
+                        "metadata-content",
+                        "{}: {} was {} after its first read; the same handle then returned {:?}, the file holds {:?}",
+                        pkg.pkgname(),
+                        FILE_NAMES[f],
+                        if exists[pi][f] { "rewritten" } else { "created" },
+                        s,
+                        t
+                    ),
+                    (Err(e), Some(_)) => fail!(
+                        "metadata-content",
+                        "{}: {} was {} after its first read; the same handle then failed: {}",
+                        pkg.pkgname(),
+                        FILE_NAMES[f],
+                        if exists[pi][f] { "rewritten" } else { "created" },
+                        e
+                    ),
+                    (Ok(s), None) => fail!(
+                        "metadata-content",
+                        "{}: {} was removed after its first read; the same handle still returned {:?}",
+                        pkg.pkgname(),
+                        FILE_NAMES[f],
+                        s
+                    ),
+                    (Err(_), None) => {}
+                }
+            }
+        }
         // validity, decided after all of them were filled: valid ones first
         let mut order: Vec<usize> = (0..listed.len()).collect();
         let wanted = |pi: usize| {
